@@ -32,16 +32,24 @@ documents or indexes, or nesting of filters)
     `Index` operations are non-unique the model answers every operation exactly as the reference store
     (Spec/RefStore.lean: documents only, `refMatch`, per-document steps) and holds the same documents;
   * `C10.sort_perm`, `C10.readback_last_written`, `C10.ref_find_is_refFind`.
-What is missing for the unrestricted capstone: (1) the reference semantics of *unique* indexes (a constraint that rejects a
-document) – C12 proves that such a rejection leaves no trace and that unique keys stay unique, but the reference store
-here has no constraints, so `store_refines` is stated for histories without unique `Index` operations; (2) the upsert
-document is `extract`'s: `C10.extract_simple_full` (`extract = refExtract` on simple filters) is stated, not proved;
-(3) that the sorted arrangement is ordered by the comparator (`sortDocs` is shared by model and reference).
+Closed since: `C10.extract_simple` (the upsert document of a simple filter is the reference's); the specification of a
+sorted find as a property of the result (`Spec/FindSpec.lean`: a skip/limit window of some permutation of the matching
+documents that is ordered by the comparator, ties in any order) with `C10.sort_sorted`, `C10.order_preorder`,
+`C10.window_spec`, `C10.find_sorted_spec` – `find_sorted_spec` mentions no sorting function; and the capstone with unique
+indexes, `C10.store_refines_unique`, against the reference store with unique *constraints* (Spec/RefStoreU.lean), plus
+`C10.unique_constraints_hold`.
+What remains: hypotheses `GoodOpU` on `Index` operations (field-name keys – necessary –, well-formed index filters, a unique
+index over at least one key – a unique index over no key is accepted by the code and never indexes anything; it is not
+generated); sort directions non-zero; that `violates` is *equivalent* to "storing the document breaks `Holds`" is not
+proved as a separate lemma (the invariant `C10.unique_constraints_hold` is).
 -/
 import Uniflow.Proofs.Refine
 import Uniflow.Proofs.PatchRef
+import Uniflow.Proofs.Extract
+import Uniflow.Proofs.SortSpec
+import Uniflow.Proofs.RefineU
 
-open Uniflow.Value Uniflow.Store Uniflow.Query Uniflow.Plan Uniflow.Index Uniflow.RefStore
+open Uniflow.Value Uniflow.Store Uniflow.Query Uniflow.Plan Uniflow.Index Uniflow.RefStore Uniflow.RefStoreU
 
 /-- `match` computes the reference evaluation: for every well-formed filter (any nesting), every value `d` that may be
 absent (`none`), `match(valueOrNil(d), present(d), f) = (refMatch d f, nil)`. -/
@@ -249,6 +257,120 @@ theorem C10.match_eq_ref_nonvacuous :
   rw [C10.match_doc_eq_ref _ (by decide)]
   exact congrArg Res.ok (by decide)
 
-/-- the upsert document of a simple filter (Spec/Query.lean `simple`) is the reference's (statement only; not proved) -/
+/-- the upsert document of a simple filter (Spec/Query.lean `simple`) is the reference's -/
 def C10.extract_simple_full : Prop :=
   ∀ f : Val, simple f = true → extract f = .ok (refExtract f)
+
+/-- **extract_simple**: for every simple filter – field conditions that are a value, exactly `{$eq: v}`, comparison-only maps,
+or nested maps of such, of any depth – `extract` returns the reference upsert document. -/
+theorem C10.extract_simple : C10.extract_simple_full := fun f h => extract_simple_V f h
+
+/-! ### the specification of a sorted find (Spec/FindSpec.lean), independent of any sorting function -/
+
+/-- **sort_sorted**: for a specification whose directions are non-zero, `sortDocs` returns a permutation of its input that
+is ordered by the specification's comparator (`refOrder`: first differing field decides, by `Compare` times the direction);
+and the model's comparator *is* that comparator. -/
+theorem C10.sort_sorted (spec : PList) (docs : List PList) (hd : directed spec = true) :
+    (sortDocs spec docs).Perm docs ∧ OrderedBy spec (sortDocs spec docs) ∧
+      ∀ x y, sortCmp x y spec = refOrder spec x y :=
+  ⟨sortDocs_perm spec docs, OrderedBy_sortDocs hd docs, fun x y => sortCmp_eq x y spec⟩
+
+/-- the comparator is a total preorder (what makes "ordered by" meaningful) -/
+theorem C10.order_preorder (spec : PList) (hd : directed spec = true) (x y z : PList) :
+    refOrder spec x y = -refOrder spec y x ∧
+      (refOrder spec x y ≤ 0 → refOrder spec y z ≤ 0 → refOrder spec x z ≤ 0) :=
+  ⟨refOrder_antisymm x y spec, (refOrder_T3 x y z spec hd).1⟩
+
+/-- `window` is skip-then-limit -/
+theorem C10.window_spec (skip limit : Nat) (docs : List PList) : window skip limit docs = refWindow skip limit docs :=
+  window_eq skip limit docs
+
+/-- the full statement: after every history (`GoodOps`), a `Find` with a well-formed filter and a sort with non-zero
+directions answers with a list that satisfies `FindSpec` of the documents `refMatch` lets through: a skip/limit window of
+*some* permutation of them that is ordered by the comparator (ties in any order). The statement mentions no sorting
+function. -/
+def C10.find_sorted_spec_full : Prop :=
+  ∀ (ops : List Op) (f : Option Val) (sort : Option PList) (skip limit : Nat), GoodOps ops → filterOk f = true →
+    (∀ spec, sort = some spec → directed spec = true) →
+    let s := run Uniflow.Index.init ops
+    ∃ res, storeFind s f sort skip limit = .ok res ∧
+      FindSpec ((s.docs.map (·.2)).filter (refMatchDoc f)) sort skip limit res
+
+/-- **find_sorted_spec** -/
+theorem C10.find_sorted_spec : C10.find_sorted_spec_full := by
+  intro ops f sort skip limit hg hf hdir s
+  have h := C10.find_eq_ref ops f sort skip limit hg
+  simp only [hf, if_true] at h
+  refine ⟨_, h, ?_⟩
+  unfold refFind FindSpec
+  cases sort with
+  | none => exact ⟨_, rfl, window_eq _ _ _⟩
+  | some spec =>
+    exact ⟨sortDocs spec _, ⟨sortDocs_perm spec _, OrderedBy_sortDocs (hdir spec rfl) _⟩, window_eq _ _ _⟩
+
+/-- a descending sort on `a` is directed, and its comparator puts `a = 2` strictly before `a = 1` -/
+theorem C10.find_sorted_spec_nonvacuous :
+    ∃ spec, directed spec = true ∧ ∃ x y : PList, refOrder spec x y < 0 :=
+  ⟨.cons (.str [97]) (.int .native (-1)) .nil, by decide,
+   .cons (.str [97]) (.int .native 2) .nil, .cons (.str [97]) (.int .native 1) .nil, by decide⟩
+
+/-! ### the capstone with unique indexes (Spec/RefStoreU.lean) -/
+
+/-- the full capstone: on **every** history whose `Index` operations are over field names with well-formed filters and –
+when unique – over at least one key (`GoodOpU`), unique indexes included, the store model answers every operation exactly
+as the reference store with unique constraints does (`uOuts`), and its documents and declared unique constraints are the
+reference's (`absOf`). In the reference a unique index is a predicate on the document set; an `Insert`/`Update` document
+is rejected iff another stored document the constraint admits has its key tuple; `Index` over conflicting data is
+rejected; nothing else is known about indexes. -/
+def C10.store_refines_unique_full : Prop :=
+  ∀ (ops : List Op), (∀ op ∈ ops, GoodOpU op) →
+    allOuts Uniflow.Index.init ops = uOuts rInit ops ∧ absOf (run Uniflow.Index.init ops) = uRun rInit ops
+
+/-- **store_refines_unique** -/
+theorem C10.store_refines_unique : C10.store_refines_unique_full := by
+  intro ops hops
+  have := run_refU ops InvU_init hops
+  rw [absOf_init] at this
+  exact this
+
+/-- in every reachable state of the model each declared unique constraint *holds* of the stored documents, as the
+predicate `Holds` of the reference (no two different stored documents the constraint admits share its key tuple) -/
+theorem C10.unique_constraints_hold (ops : List Op) (hops : ∀ op ∈ ops, GoodOpU op) :
+    ∀ c ∈ (absOf (run Uniflow.Index.init ops)).uniq, Holds c (absOf (run Uniflow.Index.init ops)).docs := by
+  intro c hc
+  have hinv : InvU (run Uniflow.Index.init ops) := by
+    have : ∀ (os : List Op) {s : State}, InvU s → (∀ op ∈ os, GoodOpU op) → InvU (run s os) := by
+      intro os
+      induction os with
+      | nil => intro s h _; exact h
+      | cons o os ih => intro s h ho; exact ih (InvU_step h (ho o (by simp))) (fun o' h' => ho o' (by simp [h']))
+    exact this ops InvU_init hops
+  simp only [absOf, uniqOf, List.mem_map, List.mem_filter] at hc
+  obtain ⟨idx, ⟨hi, hu⟩, rfl⟩ := hc
+  have hk := (hinv.good idx hi).2 hu
+  have hg := (hinv.good idx hi).1
+  have hfull := hinv.full
+  unfold Holds
+  refine List.Pairwise.imp_of_mem ?_ (Asc_distinct hfull.cons.asc)
+  intro a b ha hb hne hada hadb ht
+  rw [← admits_cst hg] at hada hadb
+  obtain ⟨ea, hea, ha1, ha2⟩ := hfull.complete idx hi hk a ha hada
+  obtain ⟨eb, heb, hb1, hb2⟩ := hfull.complete idx hi hk b hb hadb
+  have ht' : tupCmp (idx.tuple a.2) (idx.tuple b.2) = 0 := ht
+  have hab : tupCmp ea.1 eb.1 = 0 := tupCmp_zero_trans ha2 (tupCmp_zero_trans ht' (tupCmp_zero_symm hb2))
+  have hid := hfull.uniq idx hi hu ea hea eb heb hab
+  exact hne (cmp_zero_trans (cmp_zero_symm ha1) (cmp_zero_trans hid hb1))
+
+/-- a unique index that rejects: the second document with `a = 7` is refused by model and reference alike -/
+theorem C10.store_refines_unique_nonvacuous :
+    ∃ ops, (∀ op ∈ ops, GoodOpU op) ∧
+      (match (uOuts rInit ops).getLast? with | some (.err .keyDuplicate) => true | _ => false) = true := by
+  refine ⟨[.index [.str [97]] true none,
+    .insert [.cons (.str [105, 100]) (.int .native 1) (.cons (.str [97]) (.int .native 7) .nil)],
+    .insert [.cons (.str [105, 100]) (.int .native 2) (.cons (.str [97]) (.int .native 7) .nil)]], ?_, by decide⟩
+  intro op hop
+  simp only [List.mem_cons, List.mem_nil_iff, or_false] at hop
+  rcases hop with rfl | rfl | rfl
+  · exact ⟨⟨fun k hk => by simp at hk; subst hk; exact ⟨[97], rfl, by decide⟩, fun φ h => by simp at h⟩, fun _ => by simp⟩
+  · trivial
+  · trivial
